@@ -15,6 +15,7 @@ import Penguin.Lemmas.MuxBasic
 import Penguin.Lemmas.MuxStep
 import Penguin.Lemmas.LinkGlue
 import Penguin.Lemmas.MuxReach
+import Penguin.Lemmas.MuxWake
 
 namespace Penguin.C08
 open Penguin Penguin.Mux
@@ -186,7 +187,24 @@ theorem every_stream_closed_after_end (o : Opts) (ops : List Mux.Op)
 theorem reachable_wellformed (o : Opts) (ops : List Mux.Op) : WF (runOps { opts := o } ops) :=
   (reachable_inv o ops).1
 
+/-- Nothing blocks forever, writers included: in every reachable state whose connection task has
+    finished, every writer that was parked on flow-control credit has been woken (and, its stream
+    being closed, its next poll fails with BrokenPipe — `closed_stream_write_fails`). -/
+theorem parked_writers_woken_after_end (o : Opts) (ops : List Mux.Op)
+    (hd : (runOps { opts := o } ops).dead = true) (i : Nat) (ob : Obj)
+    (ho : (runOps { opts := o } ops).objs[i]? = some ob) (hp : ob.parked = true) : ob.woken = true := by
+  cases hw : ob.woken with
+  | true => rfl
+  | false =>
+    have h1 := (reachable_wakeOk o ops i ob ho hp hw).2
+    have h2 := (reachable_dead_all_closed o ops hd i ob ho).1
+    rw [h1] at h2; cases h2
+
 /-! Non-vacuity -/
+example : ((runOps { opts := {} } [.deliver (.msg (.frame (.connect 5 1 80 []))), .accept, .write 0 [1], .write 0 [2],
+    .deliver .err]).objs[0]?.map (fun o => (o.parked, o.woken))) = some (true, true) ∧
+    (runOps { opts := {} } [.deliver (.msg (.frame (.connect 5 1 80 []))), .accept, .write 0 [1], .write 0 [2],
+    .deliver .err]).dead = true := by decide
 example : (windDown { opts := {}, outq := [.ping], flows := [(3, .requested 1)],
                       opens := [{ req := 1, host := [], port := 1, retriesLeft := 0 }] } true .wsError).2
     = [.wire .ping, .wireClose, .openDone 1 .closed, .exit .wsError] := by decide
